@@ -154,7 +154,10 @@ ItrNext == /\ it.on
            /\ obs' = <<0>>
            /\ UNCHANGED <<items, fate>>
 
-Usable == it.on /\ ~it.rm /\ it.diff >= 0 /\ it.pos <= Len(items)   \* cursor designates an element
+\* cursor designates an element.  After a removal through a list iterator the cursor designates the element that followed the
+\* removed one (it can be read, replaced or removed as well, before the next ItrNext, which then stays where it is); queue and
+\* stack iterators designate nothing until ItrNext
+Usable == it.on /\ it.pos <= Len(items) /\ (IF IsList THEN TRUE ELSE ~it.rm)
 
 ItrGet == /\ Usable
           /\ obs' = <<items[it.pos]>>
@@ -165,7 +168,9 @@ ItrSet(e) == /\ Usable /\ fate[e] = "out"
              /\ items' = [items EXCEPT ![it.pos] = e]
              /\ fate' = [fate EXCEPT ![items[it.pos]] = "out", ![e] = "in"]
              /\ obs' = <<0>>
-             /\ vis' = vis \cup {e}
+             \* (monitor bookkeeping: the element taken out may come back later as a new element; the one put in counts as designated
+             \* unless the cursor only got here through a removal - then the coming ItrNext stays and designates it)
+             /\ vis' = IF IsList /\ it.diff < 0 THEN vis \ {items[it.pos]} ELSE (vis \ {items[it.pos]}) \cup {e}
              /\ UNCHANGED <<it, bad>>
 
 ItrRemove == /\ Usable
@@ -173,7 +178,8 @@ ItrRemove == /\ Usable
              /\ fate' = [fate EXCEPT ![items[it.pos]] = Gone]
              /\ it' = IF IsList THEN [it EXCEPT !.diff = it.diff - 1] ELSE [it EXCEPT !.rm = TRUE]
              /\ obs' = <<0>>
-             /\ UNCHANGED <<vis, bad>>
+             /\ vis' = vis \ {items[it.pos]}
+             /\ UNCHANGED bad
 
 \* list only: insert at the cursor; the cursor then designates the new element
 ItrInsert(e) == /\ IsList /\ it.on /\ it.diff <= 0 /\ fate[e] = "out" /\ Len(items) < MaxLen
